@@ -40,7 +40,7 @@ fn get_str(g: &GlobalDataArc, name: &str) -> String {
 
 /// block [marker a, X, marker z] where X is one element of every kind / error position; conditions and the foreach length are symbolic
 pub fn h_c08_block() {
-    let kind = vnd_conc(vnd_range(0, 14, 1), 14);
+    let kind = vnd_conc(vnd_range(0, 16, 1), 16);
     let c1 = vnd_bool(2);
     let c2 = vnd_bool(3);
     let alen = vnd_conc(vnd_range(0, 3, 4), 3) as usize;
@@ -96,6 +96,29 @@ pub fn h_c08_block() {
         7 => { let mut s = Script::new(); s.content.push(8); fsm.executableContent.insert(8, vec![marker("s", 50)]); x.push(Box::new(s)); }
         10 => { let mut f = ForEach::new(); f.array = src("x", 60); f.item = "it".to_string(); f.content = 6; fsm.executableContent.insert(6, vec![marker("!", 61)]); x.push(Box::new(f)); }
         11 => { let mut e = Expression::new(); e.content = src("x = ", 70); x.push(Box::new(e)); }
+        15 => {
+            // an error inside the branch that is taken (then / elseif / else) aborts the enclosing block as well
+            let mut outer = If::new(src("c1", 10));
+            outer.content = 2; outer.else_content = 3;
+            let mut bad1 = Assign::new(); bad1.location = src("undeclared", 91); bad1.expr = src("1", 92);
+            fsm.executableContent.insert(2, vec![marker("b", 11), Box::new(bad1), marker("B", 15)]);
+            let mut inner = If::new(src("c2", 12));
+            inner.content = 4; inner.else_content = 5;
+            fsm.executableContent.insert(3, vec![Box::new(inner)]);
+            let mut bad2 = Assign::new(); bad2.location = src("undeclared", 93); bad2.expr = src("1", 94);
+            fsm.executableContent.insert(4, vec![marker("c", 13), Box::new(bad2), marker("C", 16)]);
+            let mut bad3 = Assign::new(); bad3.location = src("undeclared", 95); bad3.expr = src("1", 96);
+            fsm.executableContent.insert(5, vec![marker("d", 14), Box::new(bad3), marker("D", 17)]);
+            x.push(Box::new(outer));
+        }
+        16 => {
+            // the body reads the collection it iterates over
+            let mut f = ForEach::new();
+            f.array = src("arr", 20); f.item = "it".to_string(); f.index = "ix".to_string(); f.content = 6;
+            let mut e = Expression::new(); e.content = src("log = log + it + arr[0]", 26);
+            fsm.executableContent.insert(6, vec![Box::new(e)]);
+            x.push(Box::new(f));
+        }
         13 => { let mut f = ForEach::new(); f.array = src("nosuch", 62); f.item = "it".to_string(); f.content = 6; fsm.executableContent.insert(6, vec![marker("!", 63)]); x.push(Box::new(f)); }
         14 => { let mut c = Cancel::new(); c.send_id_expr = src("nosuch", 90); x.push(Box::new(c)); }
         _ => { let mut a = Assign::new(); a.location = src("x", 80); a.expr = src("nosuch", 81); x.push(Box::new(a)); }
@@ -118,6 +141,8 @@ pub fn h_c08_block() {
         0 => { want.push_str(if c1 { "b" } else if c2 { "c" } else { "d" }); }
         8 => { errors = 1; want.push_str(if c2 { "c" } else { "d" }); }
         1 => { let items = ["p0", "q1", "r2"]; let mut i = 0; while i < alen { want.push_str(items[i]); i += 1; } }
+        15 => { errors = 1; aborted = true; want.push_str(if c1 { "b" } else if c2 { "c" } else { "d" }); }
+        16 => { let items = ["p", "q", "r"]; let mut i = 0; while i < alen { want.push_str(items[i]); want.push_str("p"); i += 1; } }
         9 => { if alen >= 1 { want.push_str("p0+"); } if alen >= 2 { want.push_str("q1"); errors = 1; aborted = true; } }
         2 | 5 | 7 => { if kind == 7 { want.push_str("s"); } }
         3 | 6 | 11 | 12 => { errors = 1; aborted = true; }
